@@ -69,7 +69,21 @@ fn strategy_ord(_t: Tier) -> BoxedStrategy<OrdCase> {
         .prop_flat_map(|(fam, n)| {
             arb_tt(n).prop_flat_map(move |a| {
                 let a0 = a.clone();
-                let second = prop_oneof![2 => arb_opposed(&a), 2 => arb_related(&a)];
+                // adjacent numbers (a+1, a-1: differences that ripple across word boundaries)
+                let (up, _) = a.succ();
+                let down = {
+                    let mut t = a.clone();
+                    let mut m = 0;
+                    while m < t.size() && !t.get(m) {
+                        t.set(m, true);
+                        m += 1;
+                    }
+                    if m < t.size() {
+                        t.set(m, false);
+                    }
+                    t
+                };
+                let second = prop_oneof![4 => arb_opposed(&a), 4 => arb_related(&a), 1 => Just(up), 1 => Just(down)];
                 let other_n: BoxedStrategy<Vec<Tt>> = if fam == Fam::Dyn {
                     // tables of other sizes (dynamic family only); often with the same low block
                     let a2 = a.clone();
@@ -323,7 +337,15 @@ fn arb_succ_tt(n: usize) -> BoxedStrategy<Tt> {
         }
         t
     });
-    prop_oneof![3 => low_ones, 3 => low_words, 3 => near_top, 2 => arb_tt(n)].boxed()
+    // all ones except one or two words (runs of all-ones words above and below a non-full word)
+    let ones_except = (vec((0..words, arb_tt(n)), 1..=2), any::<bool>()).prop_map(move |(holes, zero)| {
+        let mut t = Tt::one(n);
+        for (k, src) in holes {
+            t.w[k] = if zero { 0 } else { src.w[k] };
+        }
+        Tt::from_words(n, t.w)
+    });
+    prop_oneof![3 => low_ones, 3 => low_words, 3 => near_top, 3 => ones_except, 2 => arb_tt(n)].boxed()
 }
 
 fn strategy_succ(_t: Tier) -> BoxedStrategy<SuccCase> {
@@ -344,6 +366,13 @@ fn run_succ(c: &SuccCase) -> Verdict {
     let ok = lib!("successor step (hook)", y.successor());
     if let Err(e) = same_fn(y.as_ref(), &want) {
         return fail("succ:value", format!("{}: successor of {} should be {}: {}", fl, c.t.short(), want.short(), e));
+    }
+    if !wrapped {
+        // strictly increasing under the library's own order, also across a word carry
+        let o = lib!("cmp", x.cmp_(y.as_ref()));
+        ensure!(o == Ordering::Less, "succ:not-greater", "{}: cmp({}, its successor {}) = {:?}, expected Less", fl, c.t.short(), want.short(), o);
+        let o2 = lib!("cmp", y.cmp_(x.as_ref()));
+        ensure!(o2 == Ordering::Greater && !lib!("==", x.eq_(y.as_ref())), "succ:not-greater", "{}: the successor of {} does not compare greater / unequal", fl, c.t.short());
     }
     ensure!(ok == !wrapped, "succ:flag", "{}: successor of {} reports continue={} but wrap-around is {}", fl, c.t.short(), ok, wrapped);
     // iterator started at t: yields t, t+1, ... up to all-ones, then None
